@@ -170,6 +170,16 @@ def run(ctx):
     for pkg, meta, rng in stream(ctx, PROF, n):
         one(ctx, pkg.to_bytes(), meta)
         if ctx.evaluations % 30 == 1: ctx.sample({'body': meta['body'][:700], 'features': meta['features']})
+    # the part-level theorems on the repository's own documents: for how many of their content parts do the (decidable) hypotheses hold?
+    for f in (corpus_files()[:15] if ctx.quick else corpus_files()):
+        try:
+            v = ctx.drv.ask({**pk.model_case(open(f, 'rb').read(), False, True)[0], 'op': 'valid'})
+            po, no = (v.get('<partok>') or {}), (v.get('<notesok>') or {})
+            for path in po:
+                ctx.count('real documents: content part under C02_part_decidable / C02_document / C02_notes_part' if (po[path] is True or no.get(path) is True)
+                          else 'real documents: content part outside the part-level theorems (links, nested tables, text boxes, content controls)')
+        except Exception:
+            ctx.count('real documents: not readable by the encoder')
     if not ctx.quick:
         for f in corpus_files():      # real files: correspondence on every plain view (no tokens to check)
             data = open(f, 'rb').read(); ctx.evaluations += 1; ctx.count('real-file')
